@@ -54,6 +54,9 @@ def cases(draw, ctx):
         values = draw(values_for(schema, 4, 7))
         return {"mode": "parsed", "schema": schema, "values": values,
                 "pipeline": draw(st.sampled_from(observe.PIPELINES))}
+    if draw(st.integers(0, 9)) == 0:
+        recipe, values = draw(R.inheritance_family())
+        return {"mode": "dsl", "recipe": recipe, "extra_roots": [], "defs": [], "values": values}
     gen = R._Gen()
     cfg = R.RCfg(depth=depth)
     recipe = draw(R.recipes(cfg, _gen=gen))
